@@ -57,6 +57,9 @@ sel m18 && run m18 alarm database/output/bibtex.py "        return codecs.encode
 sel m19 && run m19 alarm database/__init__.py "            if string[0].islower():
                 return True" "            if string[0].isalpha():
                 return True"
+sel m20 && run m20 alarm database/output/bibtex.py "        self._write_preamble(stream, bib_data.preamble)" "        for _pre in bib_data.preamble_list:
+            self._write_preamble(stream, _pre)"
+sel m21 && run m21 alarm database/__init__.py "            fields=self.fields.lower()," "            fields=type(self.fields)((k.lower(), v.lower() if k.lower() == 'crossref' else v) for k, v in self.fields.items()),"
 sel h1 && run h1 quiet database/output/bibtex.py "        first = person.get_part_as_text('first')
         middle = person.get_part_as_text('middle')
         prelast = person.get_part_as_text('prelast')
